@@ -159,6 +159,8 @@ impl Path {
             name_part.copy_from_slice(part.as_bytes());
             name_parts.push(name_part);
         }
+        // MultiNamePrefix carries the segment count in a single byte
+        assert!(name_parts.len() <= u8::MAX as usize);
 
         Path { root, name_parts }
     }
@@ -280,6 +282,8 @@ impl Aml for Package<'_> {
 impl<'a> Package<'a> {
     /// Create Package object:
     pub fn new(children: Vec<&'a dyn Aml>) -> Self {
+        // NumElements is a single byte
+        assert!(children.len() <= u8::MAX as usize);
         Package { children }
     }
 }
@@ -321,6 +325,8 @@ impl PackageBuilder {
     }
 
     pub fn add_element(&mut self, aml: &dyn Aml) {
+        // NumElements is a single byte
+        assert!(self.elements < u8::MAX as usize);
         aml.to_aml_bytes(self);
         self.elements += 1;
     }
@@ -387,7 +393,11 @@ fn create_pkg_length(len: usize, include_self: bool) -> Vec<u8> {
         4
     };
 
-    let length = len + if include_self { length_length } else { 0 };
+    let length = len
+        .checked_add(if include_self { length_length } else { 0 })
+        .expect("PkgLength overflow");
+    // "Thus, the maximum package length is 2**28."
+    assert!(length < 2usize.pow(28));
 
     match length_length {
         1 => result.push(length as u8),
@@ -655,7 +665,11 @@ impl Aml for AddressSpace<u16> {
         sink.word(self.min); /* Min */
         sink.word(self.max); /* Max */
         sink.word(self.translation.unwrap_or(0));
-        let len = self.max - self.min + 1;
+        let len = self
+            .max
+            .checked_sub(self.min)
+            .and_then(|l| l.checked_add(1))
+            .expect("address range length must fit its field");
         sink.word(len); /* Length */
     }
 }
@@ -672,7 +686,11 @@ impl Aml for AddressSpace<u32> {
         sink.dword(self.min); /* Min */
         sink.dword(self.max); /* Max */
         sink.dword(self.translation.unwrap_or(0)); /* Translation */
-        let len = self.max - self.min + 1;
+        let len = self
+            .max
+            .checked_sub(self.min)
+            .and_then(|l| l.checked_add(1))
+            .expect("address range length must fit its field");
         sink.dword(len); /* Length */
     }
 }
@@ -689,7 +707,11 @@ impl Aml for AddressSpace<u64> {
         sink.qword(self.min); /* Min */
         sink.qword(self.max); /* Max */
         sink.qword(self.translation.unwrap_or(0)); /* Translation */
-        let len = self.max - self.min + 1;
+        let len = self
+            .max
+            .checked_sub(self.min)
+            .and_then(|l| l.checked_add(1))
+            .expect("address range length must fit its field");
         sink.qword(len); /* Length */
     }
 }
@@ -875,6 +897,8 @@ pub struct Method<'a> {
 impl<'a> Method<'a> {
     /// Create Method object.
     pub fn new(path: Path, args: u8, serialized: bool, children: Vec<&'a dyn Aml>) -> Self {
+        // ArgCount occupies three bits of the method flags
+        assert!(args <= 7);
         Method {
             path,
             children,
